@@ -56,6 +56,48 @@ def render(tabs, tol="((1 : Rat) / 100000000000000)"):
     return "\n".join(lines) + "\n"
 
 
+def catalan(n):
+    from math import comb
+    return comb(2 * n, n) // (n + 1)
+
+
+def render_order(tabs, tol="((1 : Rat) / 100000000000000)"):
+    """Butcher's order conditions, one kernel-decided obligation per method and tree size; the heavy sizes go to
+    modules of their own so that lake checks them in parallel.  Returns {module name: text} and the obligation count."""
+    light, heavy, names = [], {}, {}
+    for name, t in tabs.items():
+        s = len(t["b"])
+        names[name] = []
+        for n in range(1, t["order"] + 1):
+            thm = f"theorem {name}_trees_{n} : treeDefectAt {name} {n} ≤ {tol} := by decide +kernel"
+            names[name].append(f"{name}_trees_{n}")
+            if s * s * catalan(n - 1) > 100000:
+                heavy[f"TreeOrder_{name}_{n}"] = thm
+            else:
+                light.append(thm)
+    head = ["import Qv.Gen.Tableaux", "/-! Regenerated on every run by harness/translate_tableaux.py from /repo — do not edit. -/",
+            "set_option maxRecDepth 100000", "namespace Qv.Gen.Tableaux", "open Qv.C10", ""]
+    mods = {"Qv.Gen.TreeOrder": "\n".join(head + light + ["", "end Qv.Gen.Tableaux"]) + "\n"}
+    for m, thm in heavy.items():
+        mods["Qv.Gen." + m] = "\n".join(head + [thm, "", "end Qv.Gen.Tableaux"]) + "\n"
+    lines = ["import Qv.Props.C10"] + [f"import {m}" for m in mods] + [
+        "/-! Regenerated on every run by harness/translate_tableaux.py from /repo — do not edit. -/",
+        "namespace Qv.Gen.Tableaux", "open Qv.C10", ""]
+    nobl = 0
+    for name, t in tabs.items():
+        p_ = t["order"]
+        arms = " ".join(f"| {n}, _ => {name}_trees_{n + 1}" for n in range(p_))
+        lines.append(f"theorem {name}_shape : shapeOk {name} = true := by decide +kernel")
+        lines.append(f"/-- every rooted tree with at most {p_} vertices satisfies the order condition of `{name}` as it stands in the source -/")
+        lines.append(f"theorem {name}_order_conditions (t : BTree) (ht : t.order ≤ {p_}) : treeResidual {name} t ≤ {tol} :=")
+        lines.append(f"  order_conditions_all_trees {name} {p_} {tol} (fun n hn => match n, hn with {arms} | n + {p_}, h => absurd h (by omega)) t ht")
+        lines.append("")
+        nobl += p_ + 2
+    lines.append("end Qv.Gen.Tableaux")
+    mods["Qv.Gen.TreeOrderAll"] = "\n".join(lines) + "\n"
+    return mods, nobl
+
+
 if __name__ == "__main__":
     t = tableaux()
     print({k: (v["order"], len(v["b"])) for k, v in t.items()})
